@@ -92,9 +92,14 @@ def ensure_built(cfg, targets):
 # ---------------------------------------------------------------- known findings
 def load_known():
     path = os.path.join(VERIF, "known_findings.json")
-    if not os.path.exists(path):
-        return []
-    return json.load(open(path)).get("findings", [])
+    out = []
+    if os.path.exists(path):
+        out += json.load(open(path)).get("findings", [])
+    # development aid only (harness authors triaging before the committed file is updated)
+    extra = os.environ.get("VERIF_KNOWN")
+    if extra and os.path.exists(extra):
+        out += json.load(open(extra)).get("findings", [])
+    return out
 
 
 def known_open(known, prop, key):
